@@ -206,7 +206,7 @@ pub fn render(s: &Schema) -> String {
     let all: Vec<(String, String)> = kf.iter().chain(&vf).cloned().collect();
     let defs = |f: &[(String, String)]| f.iter().map(|(n, t)| format!("{n} {t}")).collect::<Vec<_>>().join(", ");
     let mut d = String::from("---\npolicy-version: 2\n---\n\n```policy\nuse envelope\n\nenum E { E0, E1, E2, E3 }\n\n");
-    d += &format!("fact F[{}]=>{{{}}}\n\n", defs(&kf), defs(&vf));
+    d += &format!("fact F[{}]=>{{{}}}\nfact G[n int]=>{{x int}}\n\n", defs(&kf), defs(&vf));
     // result fields
     let mut rf: Vec<(String, String)> = vec![("e".into(), "bool".into())];
     for (p, t) in [("c", "int"), ("l", "bool"), ("m", "bool"), ("x", "bool")] {
@@ -223,6 +223,9 @@ pub fn render(s: &Schema) -> String {
     );
     let this_keys = (1..=nk).map(|i| format!("k{i}: this.k{i}")).collect::<Vec<_>>().join(", ");
     let this_vals = (1..=nv).map(|i| format!("v{i}: this.v{i}")).collect::<Vec<_>>().join(", ");
+    // unrelated fact writes: bury F's facts deep in the fact-index chain (compaction at depth 16)
+    d += &command("Noise", &[("n".to_string(), "int".to_string())], "        finish { create G[n: this.n]=>{x: 0} }");
+    d += &publish_action("do_noise", "Noise", &[("n".to_string(), "int".to_string())]);
     // create / delete
     d += &command("Create", &all, &format!("        finish {{ create F[{this_keys}]=>{{{this_vals}}} }}"));
     d += &publish_action("do_create", "Create", &all);
@@ -394,7 +397,9 @@ fn run_behaviour(b: &Jv, cache: &mut HashMap<Schema, Result<Module, String>>, st
     let (nk, nv) = (schema.nk(), schema.nv());
 
     // seed the initial store through the real `create` path; layering chosen by cx
-    let layer = cx % 3; // 0: all in the perspective, 1: commit after seeding, 2: commit after every fact
+    // 0: all in the perspective, 1: commit after seeding, 2: commit after every fact,
+    // 3: as 2, then 18 committed segments of unrelated writes (crosses fact-index compaction)
+    let layer = cx % 4;
     let mut init: Vec<&Jv> = b.a("init").iter().collect();
     let mut rng = vrt::Rng::new(cx ^ 0xfac7);
     rng.shuffle(&mut init);
@@ -405,12 +410,21 @@ fn run_behaviour(b: &Jv, cache: &mut HashMap<Schema, Result<Module, String>>, st
         if o != Outcome::Ok {
             return Err(Fail { step: -1, key: "C29:seed".into(), msg: format!("creating an absent fact failed: {}", o.name()), obs: json!({"fact": f}) });
         }
-        if layer == 2 {
+        if layer >= 2 {
             r.commit().map_err(tool)?;
         }
     }
     if layer == 1 {
         r.commit().map_err(tool)?;
+    }
+    if layer == 3 {
+        for n in 0..18 {
+            let (o, _) = r.act("do_noise", vec![Value::Int(n)]);
+            if o != Outcome::Ok {
+                return Err(tool(format!("noise command failed: {}", o.name())));
+            }
+            r.commit().map_err(tool)?;
+        }
     }
     let want = conc_store(&conc, b.g("init"));
     let got = r.store().map_err(tool)?;
